@@ -187,7 +187,19 @@ func checkCase(c Case) (Expect, error) {
 				idx = i
 			}
 		}
+		nrevs := len(revs.M)
 		err := ex.ExecuteTo(ctx, c.To)
+		// a refused or empty ExecuteTo (nothing executed, nothing recorded) leaves the executor where it was: the same
+		// executor's next decision is the reference's decision for the unchanged state
+		if err != nil && len(drv.Log) == 0 && len(revs.M) == nrevs && !(len(s.Revs) == 0 && s.Baseline != "") {
+			got, perr := ex.Pending(ctx)
+			if k := classifyErr(perr); k != want.Err {
+				return want, fmt.Errorf("%v\n after ExecuteTo(%q) failed with %v the same executor's Pending gives error kind %q (%v), reference says %q with pending %v", s, c.To, err, k, perr, want.Err, want.Pending)
+			}
+			if want.Err == "" && !eq(versions(got), want.Pending) {
+				return want, fmt.Errorf("%v\n after ExecuteTo(%q) failed with %v the same executor's Pending = %v, reference says %v", s, c.To, err, versions(got), want.Pending)
+			}
+		}
 		if idx == -1 {
 			if err == nil || len(drv.Log) != 0 {
 				return want, fmt.Errorf("%v\n ExecuteTo(%q): version not in directory but err=%v, executed %v", s, c.To, err, drv.Log)
